@@ -171,6 +171,8 @@ CATALOGUE = [
     ("N", "z", [(1, 0)], 0),
     ("N", "w", [(4, 0)], 0),
     ("K", "delta", [(2, 0)], 0),
+    ("F", "F", [(1, 0)], 0),
+    ("Fd", "Fd", [(1, 0)], 0),
 ]
 CAT_BY_NAME = {c[1]: c for c in CATALOGUE}
 
@@ -192,6 +194,8 @@ class Cfg:
         self.allow_symbols = True
         self.allow_sqrt = False
         self.allow_delta = True
+        self.allow_ops = False
+        self.spin_modes = [False, False, False, True]
         self.max_slots = 12
         self.__dict__.update(kw)
 
@@ -200,7 +204,10 @@ class Cfg:
                if (self.names is None or c[1] in self.names)]
         if not self.allow_delta:
             cat = [c for c in cat if c[0] != "K"]
-        return cat
+        if not self.allow_ops:
+            cat = [c for c in cat if c[0] not in ("F", "Fd")]
+        w = getattr(self, "weights", None) or {}
+        return [c for c in cat for _ in range(w.get(c[1], 1))]
 
 
 def _antisym_conflict(objs, s1, s2):
@@ -240,10 +247,18 @@ def st_objshape(draw, cfg, cat=None):
     k, name, ranks, bk = draw(st.sampled_from(cat))
     nu, nl = draw(st.sampled_from(ranks))
     e = 1
-    if cfg.max_exp > 1 and k != "K" and nu + nl <= 4:
+    if cfg.max_exp > 1 and k not in ("K", "F", "Fd") and nu + nl <= 4:
         e = draw(st.sampled_from([1] * 7 + list(range(2, cfg.max_exp + 1))))
     return {"k": k, "name": name, "u": [None] * nu, "l": [None] * nl,
             "bk": bk, "exp": e}
+
+
+def _draw_spin(draw, spin_mode):
+    if spin_mode is True:
+        return draw(st.sampled_from("ab"))
+    if spin_mode == "mixed":
+        return draw(st.sampled_from(["", "", "a", "b"]))
+    return ""
 
 
 def _slots(objs):
@@ -312,9 +327,11 @@ def st_term_for_targets(draw, cfg, targets, spin_mode, general, numbered,
                 pc = cls.get(partner)
             if pc is not None:
                 if general and draw(st.integers(0, 5)) == 0:
-                    cls[s] = ("general", pc[1])
-                else:
-                    cls[s] = pc
+                    pc = ("general", pc[1])
+                if spin_mode == "mixed" and draw(st.integers(0, 2)) == 0:
+                    pc = (pc[0], draw(st.sampled_from(
+                        ["", pc[1]] if pc[1] else ["", "a", "b"])))
+                cls[s] = pc
                 continue
         if o["k"] == "T" and draw(st.integers(0, 6)) != 0:
             sp = "virt" if s[1] == "u" else "occ"
@@ -322,7 +339,7 @@ def st_term_for_targets(draw, cfg, targets, spin_mode, general, numbered,
                 sp = "virt" if s[1] == "u" else "occ"
         else:
             sp = draw(st.sampled_from(spaces))
-        spin = draw(st.sampled_from("ab")) if spin_mode else ""
+        spin = _draw_spin(draw, spin_mode)
         cls[s] = (sp, spin)
     # 3) pairing inside classes
     groups = []   # list of lists of slots sharing one contracted label
@@ -417,7 +434,7 @@ def st_targets(draw, cfg, spin_mode, general, numbered):
     labels = []
     for _ in range(n):
         sp = draw(st.sampled_from(spaces))
-        spin = draw(st.sampled_from("ab")) if spin_mode else ""
+        spin = _draw_spin(draw, spin_mode)
         taken = {parse_label(x)[0] for x in labels
                  if label_class(x) == (sp, spin)}
         cand = draw(st_names(sp, len(taken) + 1, numbered))
@@ -429,7 +446,8 @@ def st_targets(draw, cfg, spin_mode, general, numbered):
 @st.composite
 def st_expr_case(draw, cfg):
     """A multi-term expression whose terms share their free indices."""
-    spin_mode = cfg.allow_spin and draw(st.integers(0, 3)) == 0
+    spin_mode = draw(st.sampled_from(cfg.spin_modes)) if cfg.allow_spin \
+        else False
     general = cfg.allow_general and draw(st.integers(0, 2)) == 0
     numbered = cfg.allow_numbered and draw(st.integers(0, 2)) == 0
     explicit = cfg.allow_explicit and draw(st.integers(0, 3)) == 0
@@ -439,7 +457,7 @@ def st_expr_case(draw, cfg):
                                       numbered, explicit, []))
              for _ in range(n_terms)]
     return {"terms": terms, "targets": sort_labels(targets),
-            "explicit": explicit, "spin": spin_mode}
+            "explicit": explicit, "spin": bool(spin_mode)}
 
 
 # --------------------------------------------------------------- rebuild
